@@ -629,8 +629,11 @@ func (p *Program) pollObligations() []sob {
 			for _, in := range b.Instrs {
 				if ci, ok := in.(ssa.CallInstruction); ok {
 					if fn, ok := ci.Common().Value.(*ssa.Function); ok && fn == f {
+						if len(p.loopHeaders(g)) == 0 {
+							continue // a loop-free wrapper (runFunction): the call re-enters Run's own loop once
+						}
 						recOK = false
-						recDetail = p.keyOf[g] + " calls Run"
+						recDetail = p.keyOf[g] + " calls Run from a function with loops of its own"
 					}
 				}
 			}
